@@ -463,7 +463,8 @@ Fixpoint disagreeing_cf (i : nat) (cs : list (option (func * list string) * opti
    D = the value names visible at this point (every one of them bound, under its Python name, to the same tensor);
    NN = the names on which the translation `tr` is injective.  A checker returns the names visible afterwards.
    Covered: plain nodes (as Export/Emit.v), If (both branches), Loop in the `while` form whose body does not read its
-   condition input; bodies nested to any depth.  Everything else (the counted Loop forms, Scan, ...) -> None. *)
+   condition input, Loop in the `for` form whose body passes the condition through as its last node (or directly);
+   bodies nested to any depth.  Everything else (`for` + break, Scan, ...) -> None. *)
 Fixpoint seqokb (L R : list string) : bool :=
   match L, R with
   | x :: l, _ :: r => negb (memb x r) && seqokb l r
@@ -514,10 +515,9 @@ Section WfCF.
       | _, _, _ => None
       end.
 
-    (* Loop: only the `while` form is covered by the theorem (no trip count, a condition input, a body that does not
-       read its condition input: `wsub` runs without cond_in among the visible names).  The counted forms are part of
-       the emission model and of the correspondence check only. *)
-    Definition wf_loop (D : list vname) (dom : string) (ins : list (option vname)) (outs : list vname)
+    (* Loop, `while` form: no trip count, a condition input, a body that does not read its condition input (`wsub` runs
+       without cond_in among the visible names). *)
+    Definition wf_while (D : list vname) (dom : string) (ins : list (option vname)) (outs : list vname)
                        (attrs : list (string * attrv)) (subs : list (string * graph)) : option (list vname) :=
       match ins, attrs, subs with
       | None :: Some c :: actual, [], [(bn, Graph (iv :: cin :: fins) [] nsb (cout :: fouts))] =>
@@ -540,6 +540,57 @@ Section WfCF.
              end
         else None
       | _, _, _ => None
+      end.
+
+    (* the nodes of a counted loop's body: the pass-through `cond_out = Identity(cond_in)` must be the LAST node (where
+       the converter and every producer seen by the correspondence check put it), or absent when cond_out IS cond_in *)
+    Definition split_tail (cin cout : vname) (nodes : list node) : option (list node) :=
+      if String.eqb cout cin then Some nodes
+      else match rev nodes with
+           | Node d o [Some i] [u] [] [] :: r =>
+             if String.eqb d "" && String.eqb o "Identity" && String.eqb i cin && String.eqb u cout then Some (rev r) else None
+           | _ => None
+           end.
+
+    (* Loop, `for` form: a trip count, no condition input, no node of the body but the pass-through mentions the
+       condition; the iteration variable is an ordinary visible name of the body *)
+    Definition wf_for (D : list vname) (dom : string) (ins : list (option vname)) (outs : list vname)
+                      (attrs : list (string * attrv)) (subs : list (string * graph)) : option (list vname) :=
+      match ins, attrs, subs with
+      | Some m :: None :: actual, [], [(bn, Graph (iv :: cin :: fins) [] nodes (cout :: fouts))] =>
+        let acts := present actual in
+        let n := List.length actual in
+        match split_tail cin cout nodes with
+        | Some nsb =>
+          if String.eqb dom "" && String.eqb bn "body" &&
+             match loop_form_of ins (Graph (iv :: cin :: fins) [] nodes (cout :: fouts)) with Some FFor => true | _ => false end &&
+             Nat.eqb (List.length acts) n && forallb (fun a => memb a D) acts &&
+             Nat.eqb (List.length fins) n && Nat.eqb (List.length fouts) n && Nat.eqb (List.length outs) n &&
+             nodupb (iv :: cin :: fins) && freshb D iv && negb (memb cin D) &&
+             forallb (freshb D) fins && forallb (freshb D) outs && nodupb outs &&
+             forallb nonempty fouts && nonempty cout &&
+             nodupb (map tv outs) && seqokb (map tv outs) (map tv fins) &&
+             memb m D && nodupb (map tv fins) &&
+             seqokb (map tv fins) (map tvo actual) &&
+             seqokb (map tv fins) (map tv fouts) &&
+             String.eqb (tr cout) (tr cin) &&
+             negb (memb cin (names_nodes nsb)) && negb (memb cout fouts)
+          then match wsub (fins ++ iv :: D)%list nsb with
+               | Some Db => if forallb (fun o => memb o Db) fouts && (String.eqb cout cin || negb (memb cout Db))
+                            then Some (outs ++ D)%list else None
+               | None => None
+               end
+          else None
+        | None => None
+        end
+      | _, _, _ => None
+      end.
+
+    Definition wf_loop (D : list vname) (dom : string) (ins : list (option vname)) (outs : list vname)
+                       (attrs : list (string * attrv)) (subs : list (string * graph)) : option (list vname) :=
+      match wf_while D dom ins outs attrs subs with
+      | Some r => Some r
+      | None => wf_for D dom ins outs attrs subs
       end.
 
     Definition wf_node (D : list vname) (n : node) : option (list vname) :=
